@@ -125,7 +125,12 @@ class ModuleInfo:
         self.relpath = relpath
         self.src = src
         self.sha256 = hashlib.sha256(src.encode()).hexdigest()
-        self.tree = _fold_return_temporaries(_normalise_blocks(ast.parse(src, filename=path)))
+        tree = _fold_return_temporaries(_normalise_blocks(ast.parse(src, filename=path)))
+        from .inliner import inline_free_helpers
+        self.inlined_sites = inline_free_helpers(tree)
+        if self.inlined_sites:
+            tree = _fold_return_temporaries(_normalise_blocks(tree))
+        self.tree = tree
         self.imports = {}  # local name -> dotted name
         self.functions = {}
         self.classes = {}
